@@ -11,6 +11,8 @@ seen = [json.dumps(f, sort_keys=True) for f in ours["findings"]]
 for f in theirs["findings"]:
     if json.dumps(f, sort_keys=True) not in seen:
         ours["findings"].append(f)
+ret = {(r["property"], r["signature"]) for r in ours.get("retired_open_signatures", [])}
+ours["findings"] = [f for f in ours["findings"] if not (f.get("status") == "open" and (f["property"], f.get("signature")) in ret)]
 json.dump(ours, open("known_findings.json","w"), indent=1)
 print("known_findings merged:", len(ours["findings"]), "entries")
 PY
